@@ -21,6 +21,7 @@ import (
 	"errors"
 	"fmt"
 	"os"
+	"slices"
 	"strings"
 
 	"github.com/rkosegi/yaml-toolkit/dom"
@@ -117,7 +118,9 @@ func EncodeEmbeddedDoc(item string, encFn dom.EncoderFunc) EncodeInternalFn {
 func DecodeEmbeddedProps() DecodeInternalFn {
 	return func(m Manifest) (dom.ContainerBuilder, error) {
 		c := dom.Builder().Container()
-		for _, k := range m.StringData().List() {
+		keys := m.StringData().List()
+		slices.Sort(keys)
+		for _, k := range keys {
 			c.AddValueAt(k, dom.LeafNode(*m.StringData().Get(k)))
 		}
 		return c, nil
